@@ -36,10 +36,9 @@ SKIP = r'Result(::)?<.*>::|as std::ops::Try>::|FromResidual|std::convert::|Itera
 # (body path regex, callee regex): reason.  One named site each.
 EXC = [
     (r'^hasher::fadvise$', r'posix_fadvise$', 'advice to the kernel only; failure changes nothing'),
-    (r"^hasher::FileHasher::<'_>::hash_file::\{closure#0\}$", r'FileMetadata::new$', 'cache lookup metadata: on failure the file is hashed uncached, and the hashing itself reports the error'),
-    (r"^hasher::FileHasher::<'_>::hash_file::\{closure#1\}$", r'HashCache::key$', 'cache key: on failure the file is hashed uncached'),
-    (r"^hasher::FileHasher::<'_>::hash_transformed::\{closure#0\}$", r'FileMetadata::new$', 'cache lookup metadata: falls back to uncached hashing'),
-    (r"^hasher::FileHasher::<'_>::hash_transformed::\{closure#1\}$", r'HashCache::key$', 'cache key: falls back to uncached hashing'),
+    # in the function itself, in one of its closures, or in a helper that was inlined into it
+    (r"^hasher::FileHasher::<'_>::hash_(file|transformed)(::\{closure#\d+\})*$", r'FileMetadata::new$', 'cache lookup metadata: on failure the file is hashed uncached, and the hashing itself reports the error'),
+    (r"^hasher::FileHasher::<'_>::hash_(file|transformed)(::\{closure#\d+\})*$", r'HashCache::key$', 'cache key: on failure the file is hashed uncached'),
     (r'^<transform::Input as std::ops::Drop>::drop$', r'remove_file$', 'clean-up of a temporary in Drop'),
     (r'^<transform::Output as std::ops::Drop>::drop$', r'remove_file$', 'clean-up of a temporary in Drop'),
     (r'^<transform::Transform as std::ops::Drop>::drop$', r'remove_dir_all$', 'clean-up of the temporary directory in Drop'),
